@@ -49,7 +49,14 @@ _EVENT_CLASSES = {}
 def event_class(name):
     c = _EVENT_CLASSES.get(name)
     if c is None:
-        c = type(name, (BaseEvent,), {'__module__': __name__})
+        if name.startswith('W'):   # WAL payload events: declared, typed fields (extra fields are allowed too)
+            import datetime as _dt
+            from typing import Any as _Any
+            c = type(name, (BaseEvent,), {'__module__': __name__, '__annotations__': {
+                'n': int, 's': str, 'tags': list[str], 'nested': dict[str, _Any], 'when': _dt.datetime, 'opt': float | None},
+                'n': 0, 's': '', 'tags': [], 'nested': {}, 'when': _dt.datetime(2020, 1, 2, 3, 4, 5, tzinfo=_dt.timezone.utc), 'opt': None})
+        else:
+            c = type(name, (BaseEvent,), {'__module__': __name__})
         _EVENT_CLASSES[name] = c
     return c
 
@@ -98,7 +105,9 @@ class Rec:
         self.probe_missing = []
         self.extra = {}  # internal state projector installed by probes (lock, unfinished ...)
         self.prev_extra = None
-        self.wal_faults = {}
+        self.wal_faults = {}       # bus -> set of write indices (1-based) that fail, 'open:<n>' or 'write:<n>'
+        self.wal_lines = {}        # bus -> [(eid or 0, raw line)]
+        self.wal_count = {}
         self.keep = []  # strong references (ids must not be reused inside a scenario)
 
     # ---- identities -------------------------------------------------------------------------
@@ -659,7 +668,9 @@ async def _main(rec, scn, probes):
     for bd in scn['buses']:
         kw = {}
         if bd.get('wal'):
-            kw['wal_path'] = bd['wal']
+            kw['wal_path'] = os.path.join(os.environ.get('VERIF_WORK', '/verif/.work'), 'wal', bd['name'] + '.jsonl')
+            rec.wal_faults[bd['name']] = set(bd.get('wal_faults') or [])
+            rec.wal_lines[bd['name']] = []
         b = VBus(name=bd['name'], parallel_handlers=bool(bd.get('parallel')),
                  max_history_size=bd.get('maxhist'), **kw)
         rec.buses[b.name] = b
@@ -706,7 +717,7 @@ async def _main(rec, scn, probes):
     for i, t in state['tasks'].items():
         if t.done() and not t.cancelled() and t.exception() is not None:
             failed.append('D%d:%r' % (i, t.exception()))
-    rec.log('End', blocked=blocked, open=sorted(rec.open), abort='', failed=failed,
+    rec.log('End', blocked=blocked, open=sorted(rec.open), abort='', failed=failed, wal=wal_summary(rec),
             running=[b.name for b in rec.buses.values() if b._is_running],
             rldone=[b.name for b in rec.buses.values() if b._runloop_task is None or b._runloop_task.done()],
             crldone=[n for n, t in state.get('crl', {}).items() if t is None or t.done()])
@@ -725,6 +736,31 @@ async def _main(rec, scn, probes):
             pass
 
 
+def wal_summary(rec):
+    """decode every WAL line back into an event and compare it with the original object (the fidelity oracle of C17)"""
+    out = []
+    for bname, lines in rec.wal_lines.items():
+        items = []
+        for raw in lines:
+            e, ok = 0, False
+            try:
+                d = json.loads(raw)
+                e = rec.eid_of.get(d.get('event_id'), 0)
+                if e and raw.endswith('\n') and raw.count('\n') == 1:
+                    orig = rec.events[e - 1]
+                    back = type(orig).model_validate_json(raw)
+                    a = orig.model_dump(exclude={'event_results', 'event_path', 'event_processed_at'})
+                    b = back.model_dump(exclude={'event_results', 'event_path', 'event_processed_at'})
+                    path_ok = bname in back.event_path and list(orig.event_path)[:len(back.event_path)] == list(back.event_path)
+                    ok = a == b and path_ok and back.event_id == orig.event_id and back.event_type == orig.event_type \
+                        and back.event_parent_id == orig.event_parent_id
+            except Exception:
+                ok = False
+            items.append([e, ok])
+        out.append([bname, items])
+    return out
+
+
 def execute(scn, probes=None):
     """Run one scenario; returns the trace dict {'scn':..., 'lines': [...], 'abort': kind|None}."""
     global REC
@@ -741,7 +777,7 @@ def execute(scn, probes=None):
     finally:
         REC = None
     if abort is not None:
-        rec.lines.append({'a': 'End', 't': rec.lines[-1]['t'] if rec.lines else 0, 'tk': 'X', 'blocked': [], 'open': sorted(rec.open),
+        rec.lines.append({'a': 'End', 't': rec.lines[-1]['t'] if rec.lines else 0, 'tk': 'X', 'blocked': [], 'open': sorted(rec.open), 'wal': [],
                           'abort': abort, 'failed': [], 'running': [], 'rldone': [], 'crldone': [],
                           'evs': [], 'hist': [], 'q': [], 'reg': []})
     for hd in scn['handlers']:
